@@ -230,11 +230,18 @@ fn cmd_regs(req: &Value) -> Value {
                 let name = arr[0].as_str().unwrap_or("");
                 let val = arr[1].as_u64().unwrap_or(0) as u32;
                 match reg_by_name(name) {
+                    // the program counter also has dedicated accessors: use them for PC writes so both paths are exercised
+                    Some(r) if name == "PC" && op.get("via_pc_accessor").and_then(|v| v.as_bool()).unwrap_or(false) => {
+                        let _ = r;
+                        state.set_pc(val)
+                    }
                     Some(r) => state.set_reg(r, val),
                     None => out.push(json!({"err": format!("unknown reg {name}")})),
                 }
             } else if op.get("readall").is_some() {
-                out.push(regs_json(&state, false));
+                let mut v = regs_json(&state, false);
+                v["PC_accessor"] = json!(state.pc());
+                out.push(v);
             } else if op.get("snap").is_some() {
                 // collect -> pack -> unpack -> apply to a fresh state
                 let regs = sc62015_core::collect_registers(&state);
@@ -299,6 +306,7 @@ fn dispatch(req: &Value) -> Value {
         "tables" => cmd_tables(req),
         "ping" => json!({"pong": true}),
         "mem" => devices::cmd_mem(req),
+        "sysimage" => devices::cmd_sysimage(req),
         "timer" => devices::cmd_timer(req),
         "kbd" => devices::cmd_kbd(req),
         "lcd" => devices::cmd_lcd(req),
